@@ -2,7 +2,9 @@
 
   * DC_TYPE_KEY
   * from_dict: the rule deriving the default of drop_extra_fields from decode_into_subclasses (and getattr's default),
-    the sort key used on the candidate subclasses, the comparison of the superset test, which matching candidate is
+    the sort key used on the candidate subclasses (number of init fields / of all fields), which fields found in the
+    dict are required of a candidate and which of the candidate's fields are looked at (init only / all; both shapes of
+    the code are recognised), the comparison of the superset test, which matching candidate is
     returned (first in the sorted list), the drop_extra_fields value passed when re-entering with the chosen subclass
   * the rest of from_dict, and to_dict / get_init_fields / SerializableMixin.__init_subclass__ / utils.all_subclasses,
     are compared as cleaned text with the shapes the model was written against (fail closed on any other edit).
@@ -81,11 +83,10 @@ FROM_DICT_SKELETON = '''def from_dict(cls: type[DataclassT], d: dict[str, Any], 
             for subclass in all_subclasses(cls):
                 if subclass is not cls:
                     derived_classes.append(subclass)
-            req_init_field_names = set(chain(extra_args, init_args))
+            req_init_field_names = __REQUIRED__
             derived_classes.sort(key=__SORT_KEY__)
             for child_class in __CANDIDATES__:
-                child_init_fields: dict[str, Field] = get_init_fields(child_class)
-                child_init_field_names = set(child_init_fields.keys())
+                child_init_field_names = __CANDIDATE_FIELDS__
                 if __SUPERSET_TEST__:
                     return from_dict(child_class, d, drop_extra_fields=__CHILD_DROP__)
     init_args.update(extra_args)
@@ -191,7 +192,18 @@ def _sort_key(call):
         return "KInitCount"
     if body == f"-len(get_init_fields({x}))":
         return "KNegInitCount"
+    if body == f"len(fields({x}))":
+        return "KAllCount"
     raise Unrecognised(f"sort key body: {body[:100]}")
+
+
+REQ_SHAPES = {"set(chain(extra_args, init_args))": "ReqInit",
+              "set(chain(extra_args, init_args, non_init_args))": "ReqAll"}
+# statements of the candidate loop before the test -> which of the candidate's fields are looked at
+CAND_SHAPES = {("child_init_fields: dict[str, Field] = get_init_fields(child_class)",
+                "child_init_field_names = set(child_init_fields.keys())"): "FInit",
+               ("child_init_field_names = set(get_init_fields(child_class).keys())",): "FInit",
+               ("child_init_field_names = {f.name for f in fields(child_class)}",): "FAll"}
 
 
 def _cmp(test):
@@ -231,6 +243,15 @@ def _from_dict_facts(fn):
                 raise Unrecognised("from_dict: two `drop_extra_fields is None` blocks")
             facts["rule"], facts["absent"] = _drop_rule(first.value)
             first.value = hole("__DROP_RULE__")
+        # req_init_field_names = set(chain(extra_args, init_args[, non_init_args]))
+        if isinstance(node, ast.Assign) and len(node.targets) == 1 and unparse(node.targets[0]) == "req_init_field_names":
+            if "rset" in facts:
+                raise Unrecognised("from_dict: req_init_field_names assigned twice")
+            shape = unparse(node.value)
+            if shape not in REQ_SHAPES:
+                raise Unrecognised(f"from_dict: required names are `{shape[:120]}`")
+            facts["rset"] = REQ_SHAPES[shape]
+            node.value = hole("__REQUIRED__")
         # derived_classes.sort(key=...)
         if isinstance(node, ast.Expr) and isinstance(node.value, ast.Call) and unparse(node.value.func) == "derived_classes.sort":
             if "skey" in facts:
@@ -249,6 +270,12 @@ def _from_dict_facts(fn):
             else:
                 raise Unrecognised(f"from_dict: candidates are iterated as `{it[:80]}`")
             node.iter = hole("__CANDIDATES__")
+            pre = tuple(unparse(st) for st in node.body if not isinstance(st, ast.If))
+            if pre not in CAND_SHAPES or not isinstance(node.body[-1], ast.If):
+                raise Unrecognised(f"from_dict: how the candidate's field names are computed: {' ; '.join(pre)[:200]}")
+            facts["cset"] = CAND_SHAPES[pre]
+            node.body = [ast.Assign(targets=[ast.Name(id="child_init_field_names", ctx=ast.Store())],
+                                    value=hole("__CANDIDATE_FIELDS__"), lineno=0), node.body[-1]]
             if node.orelse:
                 raise Unrecognised("from_dict: for/else on the candidate loop")
             ifs = [s for s in node.body if isinstance(s, ast.If)]
@@ -262,7 +289,7 @@ def _from_dict_facts(fn):
                 raise Unrecognised(f"from_dict: what the candidate loop returns: {unparse(ret)[:120]}")
             facts["child_drop"] = const(ret.keywords[0].value, bool)
             ret.keywords[0].value = hole("__CHILD_DROP__")
-    for k in ("rule", "absent", "skey", "pick", "cmp", "child_drop"):
+    for k in ("rule", "absent", "skey", "pick", "cmp", "child_drop", "cset", "rset"):
         if k not in facts:
             raise Unrecognised(f"from_dict: could not locate the construct for `{k}`")
     got = unparse(fn)
@@ -300,12 +327,14 @@ def emit(repo: str) -> str:
     if td != "return to_dict(self, dict_factory=dict_factory, recurse=recurse, save_dc_types=save_dc_types)":
         raise Unrecognised(f"SerializableMixin.to_dict body: {td[:100]}")
     _same_text("utils.all_subclasses", find_def(utils, "all_subclasses"), ALL_SUBCLASSES_TEXT)
-    args = "DC_TYPE_KEY SORT_KEY_GEN SUPERSET_CMP_GEN PICK_GEN DROP_RULE_GEN DIS_ABSENT_GEN CHILD_DROP_GEN"
+    args = "DC_TYPE_KEY SORT_KEY_GEN SUPERSET_CMP_GEN CAND_FIELDS_GEN REQUIRED_GEN PICK_GEN DROP_RULE_GEN DIS_ABSENT_GEN CHILD_DROP_GEN"
     return (
         "From SPV Require Import Base.Str Model.Subclass.\nOpen Scope string_scope.\n"
         f"Definition DC_TYPE_KEY : string := {cstr(key)}.\n"
         f"Definition SORT_KEY_GEN : sortkey := {facts['skey']}.\n"
         f"Definition SUPERSET_CMP_GEN : cmpop := {facts['cmp']}.\n"
+        f"Definition CAND_FIELDS_GEN : candset := {facts['cset']}.\n"
+        f"Definition REQUIRED_GEN : reqset := {facts['rset']}.\n"
         f"Definition PICK_GEN : pick := {facts['pick']}.\n"
         f"Definition DROP_RULE_GEN : droprule := {facts['rule']}.\n"
         f"Definition DIS_ABSENT_GEN : bool := {cbool(facts['absent'])}.\n"
@@ -313,7 +342,7 @@ def emit(repo: str) -> str:
         "(* the model instantiated with the regenerated facts *)\n"
         f"Definition from_ser_gen := from_ser {args}.\n"
         "Definition to_ser_gen := to_ser DC_TYPE_KEY.\n"
-        "Definition choose_gen := choose SORT_KEY_GEN SUPERSET_CMP_GEN PICK_GEN.\n"
+        "Definition choose_gen := choose SORT_KEY_GEN SUPERSET_CMP_GEN CAND_FIELDS_GEN PICK_GEN.\n"
         "Definition dis_of_gen := dis_of DIS_ABSENT_GEN.\n"
         "Definition wf_hier_gen := wf_hier DC_TYPE_KEY.\n"
     )
